@@ -152,9 +152,9 @@ def check(col: Collector, tier: str):
     for cname, pfx in PREFIX.items():
         c = repo.find_class(cname)
         ini = c.methods.get("__init__")
-        lit = [const_str(n.value) for n in ast.walk(ini.node) if isinstance(n, ast.Assign) and src(n.targets[0]) == "prefix"] if ini else []
         sup = [x for x in ast.walk(ini.node) if isinstance(x, ast.Call) and src(x.func) == "super().__init__"] if ini else []
-        col.add("C03.R3", f"{cname}.__init__", "backend-prefix", lit == [pfx] and len(sup) == 1 and src(sup[0].args[0]) == "prefix", f"prefix literal {lit}", ini.loc if ini else c.module.rel)
+        lit = [const_str(resolve_name(ini.node, x.args[0])) for x in sup if x.args]
+        col.add("C03.R3", f"{cname}.__init__", "backend-prefix", lit == [pfx] and len(sup) == 1, f"prefix passed to the base visitor: {lit}", ini.loc if ini else c.module.rel)
     qi = m.get("__init__")
     col.add("C03.R3", "query_ast_visitor.__init__", "prefix-stored", any(src(n) == "self._prefix = prefix" for n in ast.walk(qi.node) if isinstance(n, ast.Assign)), "", qi.loc)
 
